@@ -16,10 +16,10 @@ class C09(Prop):
     id = "C09"
     title = "No event history or failing task takes the driver down"
     lean_modules = ["NV.C09.Props", "NV.C09.Witness"]
-    theorems = ["NV.C09.backend_total", "NV.C09.backend_total_prefix", "NV.C09.only_failing_hb_removed",
-                "NV.C09.error_keeps_other_heart_beats", "NV.C09.pending_tasks_preserved",
+    theorems = ["NV.C09.only_failing_hb_removed", "NV.C09.error_keeps_other_heart_beats",
+                "NV.C09.flags_clear_after_error", "NV.C09.pending_tasks_preserved",
                 "NV.C09.recover_preserves_pending", "NV.C09.callout_sweep_continues_after_error",
-                "NV.C09.freed_conn_never_used", "NV.C09.flags_clear_after_error"]
+                "NV.C09.freed_conn_never_used", "NV.C09.idle_tick_no_crash", "NV.C09.callMasterHandler_core"]
     witness_theorems = ["NV.C09.connect_error_leaks_record"]
     consts = [("logCatches", "NV_LOG_CATCHES"), ("numConsts", "5")]
     const_headers = ["lib/efuns/options.h"]
